@@ -414,10 +414,13 @@ impl OptSet {
         if rng.chance(1, 4) {
             let (a, b) = *rng.pick(&[(&b"v"[..], &b"rel-"[..]), (b"", b"new-"), (b"rel-", b"v"), (b"ann", b"note"), (b"l", b"L"), (b"v", b"x/v"), (b"on", b""), (b"v", b"v"), (b"", b"")]);
             o.tag_rename = Some((a.to_vec(), b.to_vec()));
+            // a rename that changes the case of the prefix only
+            if !a.is_empty() && rng.chance(1, 4) { o.tag_rename = Some((a.to_vec(), a.to_ascii_uppercase())); }
         }
         if rng.chance(1, 4) {
             let (a, b) = *rng.pick(&[(&b"ma"[..], &b"tru"[..]), (b"main", b"trunk"), (b"", b"b/"), (b"side", b"topic"), (b"rel/", b"release/"), (b"ma", b"main"), (b"side", b"main"), (b"m", b""), (b"ma", b"ma"), (b"", b"")]);
             o.branch_rename = Some((a.to_vec(), b.to_vec()));
+            if !a.is_empty() && rng.chance(1, 4) { o.branch_rename = Some((a.to_vec(), a.to_ascii_uppercase())); }
         }
         if rng.chance(1, 4) { o.max_blob = Some(*rng.pick(&[999usize, 1000, 1001, 1002, 5, 1, 100000])); }
         if rng.chance(1, 6) && !h.blobs.is_empty() {
